@@ -43,6 +43,7 @@ type Ctx struct {
 	ruleDoc  map[string]string
 	ruleN    map[string]int
 	stats    map[string]int
+	wsCache  *WS
 }
 
 func newCtx(p *Prog, r *Roles, property string) *Ctx {
